@@ -414,7 +414,14 @@ private:
       }
       auto& session = it->second;
 
-      if (isStart)
+      // Test the limit BEFORE appending, so the reassembly buffer never grows
+      // past _maxFrameSize (subtraction form: the sum cannot wrap).
+      const std::size_t buffered = isStart ? 0 : session.fragmentBuffer.size();
+      if (buffered > _maxFrameSize || frame.payload.size() > _maxFrameSize - buffered)
+      {
+        tooLarge = true;
+      }
+      else if (isStart)
       {
         session.fragmentOpcode = frame.opcode;
         session.fragmentBuffer = frame.payload;
@@ -425,11 +432,7 @@ private:
                                        frame.payload.begin(), frame.payload.end());
       }
 
-      if (session.fragmentBuffer.size() > _maxFrameSize)
-      {
-        tooLarge = true;
-      }
-      else if (frame.fin)
+      if (!tooLarge && frame.fin)
       {
         messageComplete = true;
         messageOpcode = session.fragmentOpcode;
@@ -442,11 +445,19 @@ private:
     // Fire callbacks outside lock
     if (tooLarge)
     {
+      // Fail the connection like the oversize-frame path in onUpgradedData: a
+      // peer that ignores the Close must not be able to keep feeding
+      // CONTINUATION frames (and the fragment state goes with the session).
       sendClose(sid, 1009, "Message Too Big");
       if (_onError)
       {
         _onError(sid, "Message exceeded maxFrameSize");
       }
+      {
+        std::lock_guard<std::mutex> lock(_wsMutex);
+        _sessions.erase(sid);
+      }
+      closeSession(sid);
       return;
     }
 
